@@ -590,7 +590,29 @@ LIST_METHODS = {
     "copy": lambda I, lst: PList(list(lst.items)),
     "sort": _list_sort,
     "clear": _list_clear,
+    "add": lambda I, lst, x: _set_add(I, lst, x),
 }
+
+
+def _set_add(I, lst, x):
+    """set.add on the list model of a mutable set (PList tagged "set"): concrete elements only"""
+    if getattr(lst, "tag", None) != "set":
+        raise Unsupported("add() on a list")
+    for y in lst.items:
+        e = py_eq(I, y, x)
+        if e is True:
+            return None
+        if e is not False:
+            raise Unsupported("set.add of a symbolic element")
+    lst.items.append(x)
+    return None
+
+
+def _set(I, it=None):
+    """set(): an EMPTY set that may grow by add() is a tagged list; set(iterable) stays an immutable snapshot"""
+    if it is None:
+        return PList([], tag="set")
+    return _tuple(I, it)
 
 
 def _dict_get(I, d, key, default=None):
@@ -947,7 +969,7 @@ BUILTINS = {
     "isclose": _isclose,
     "hasattr": _hasattr,
     "getattr": _getattr,
-    "set": _tuple,
+    "set": _set,
     "frozenset": _tuple,
 }
 
@@ -1179,6 +1201,13 @@ def ext_attr(I, mod, name, node):
         return PBuiltin(name, lambda I, *a, **k: FStr(["<pformat>"]))
     if base == "logger" or base == "logging":
         return PBuiltin(name, lambda I, *a, **k: None)
+    if base == "collections" and name == "OrderedDict":
+        # (dicts keep insertion order: an empty OrderedDict is an empty dict)
+        def _od(I, *a, **k):
+            if a or k:
+                raise Unsupported("OrderedDict(...) with arguments")
+            return PDict()
+        return PBuiltin("OrderedDict", _od)
     if base == "copy" and name == "deepcopy":
         def _deepcopy(I, x):
             # a structure-preserving copy of the reachable object graph; the copies are fresh allocations
